@@ -468,11 +468,17 @@ Error BaseBuilder::register_label_node(LabelNode* node) {
   }
 
   uint32_t label_id;
-  ASMJIT_PROPAGATE(_code->new_label_id(Out(label_id)));
+  Error err = _code->new_label_id(Out(label_id));
+  if (ASMJIT_UNLIKELY(err != Error::kOk)) {
+    return report_error(err);
+  }
 
   // We just added one label so it must be true.
   ASMJIT_ASSERT(_label_nodes.size() < label_id + 1);
-  ASMJIT_PROPAGATE(_label_nodes.resize_grow(_builder_arena, label_id + 1));
+  err = _label_nodes.resize_grow(_builder_arena, label_id + 1);
+  if (ASMJIT_UNLIKELY(err != Error::kOk)) {
+    return report_error(err);
+  }
 
   _label_nodes[label_id] = node;
   node->_label_id = label_id;
